@@ -64,6 +64,91 @@ CHECKS.update({
         technique=KANI + "panic-freedom of each call from an arbitrary invariant state"),
 })
 
+CHECKS.update({
+    "C01": dict(
+        category="model_checking",
+        text="Compositional bounded model checking of the real clock-edge code: (1) one solver lemma proves the sequencing of an edge (next micro "
+             "address, IR update, flip-flop) equal to a per-word model for all 512 words and every state; (2) over that proved model the driver "
+             "enumerates every micro path of every defined first and second byte; (3) one harness per path starts from an ARBITRARY boundary state "
+             "(all registers incl. stale scratch, flags, 240 RAM bytes, I/O, board, pending commit), runs the real trigger_clock_edge along the path "
+             "(control re-concretised by assume/set) and compares registers R0-R5, flags incl. upper bits, RAM, I/O registers, board and the next "
+             "fetched byte with an ISA-level reference; MUL/DIV by loop invariants and ranking functions from arbitrary loop-head states. No bound on "
+             "data; sequences of instructions by induction over boundary states. Quick = one path per micro-routine family, thorough = all 125 paths.",
+        design_ref="DESIGN.md sections 2 and 3 / C01",
+        note="Assumes: machine stays Running (halts are C05), no interrupt taken at the end (C04), L-wait lemma for skipped wait edges. Oracle: isa_ref.rs "
+             "(written from the instruction table and the listing's instruction names); memory behind the CPU is the real Bus (C10/C14). Logging compiled out.",
+        technique=KANI + "sequencer lemma + per-micro-path harnesses with symbolic data, loop invariants for MUL/DIV"),
+    "C15": dict(
+        category="model_checking",
+        text="Same path harnesses as C01 in timing mode: clock edges between two instruction boundaries == micro-steps of the path (from the proved "
+             "sequencer model) + pending wait at the start + one per bus step touching 0x00-0xEF, with all access addresses symbolic so the 0xEF/0xF0 "
+             "boundary (code at the boundary, stack at the boundary) is decided by the solver; plus the one-edge lemmas 'a wait swallows exactly one "
+             "edge' and 'wait pending iff the new word accessed RAM' from a fully symbolic state.",
+        design_ref="DESIGN.md section 3 / C15",
+        note="Micro-step counts per form come from the model proved equal to the code in the same run; access counts from the reference model.",
+        technique=KANI + "per-path edge counting with symbolic addresses + one-edge wait lemmas"),
+    "C09": dict(
+        category="model_checking",
+        text="Two solver queries prove, from every machine state with the micro address symbolic, that the real edge's next address / IR update / "
+             "flip-flop equal a per-word specialised model regenerated from the source; the driver then explores the whole abstract control space of "
+             "that model (address x IR under all flag, ALU-condition, flip-flop and fetched-byte inputs) and checks C09's facts: only programmed words, "
+             "block confinement, exact set of never-completing first bytes, defined second bytes complete, only MUL/DIV loop; MUL/DIV termination "
+             "by solver-checked ranking functions from arbitrary loop-head states (no enumeration of operand pairs).",
+        design_ref="DESIGN.md section 2.3 / C09",
+        note="Graph search is ordinary code over a solver-proved transition relation. A violated fact is reported only if the model lemma passed in the same run.",
+        technique=KANI + "model-equivalence lemma for the micro-sequencer + exhaustive graph search over the proved model + ranking lemmas"),
+    "C04": dict(
+        category="model_checking",
+        text="Obligations, each a solver query over the real code from arbitrary states: the key sets the flip-flop iff MICR bit 0; the flip-flop "
+             "persists over every edge that does not sample it and is cleared by the sampling edge (so the trigger cycle is arbitrary: inside "
+             "multi-cycle instructions, waits, MUL/DIV loops); sampling happens only in the last word of a routine and EI/DI/RETI end without it "
+             "(from the proved sequencer model); the entry routine pushes FR then PC, clears IE, jumps to 2 (both kinds of 'int:' word); RETI "
+             "restores PC and FR. Transparency of a register-preserving ISR is derived from these + C01, not run as one scenario.",
+        design_ref="DESIGN.md section 3 / C04",
+        note="'Enabled' = MICR.0 at the key press and IE at the next sampling word. No bounded end-to-end interrupted-vs-uninterrupted run is included.",
+        technique=KANI + "flip-flop one-edge lemmas + entry/RETI path harnesses + sequencer-model facts"),
+    "C02": dict(
+        category="model_checking",
+        text="One step of the real translator (push_instruction via a guarded hook) from a symbolic address counter for every instruction form: "
+             "emitted bytes/label references == reference encoding, counter' == counter + bytes emitted (the inductive step behind correct label "
+             "addresses for programs of any length), relative-jump closure == target - (next+2) mod 256. AST shape concrete per harness, registers/"
+             "constants/counter symbolic. Two-operand class: leaf encoders for 33 of 48 shapes per class + byte count/counter through "
+             "push_instruction + opcode-base dispatch on one shape.",
+        design_ref="DESIGN.md section 3 / C02",
+        note="NOT covered: label table (HashMap insert/lookup, case), finish() substitution, line/byte pairing; 15 heavy two-operand shapes per class only "
+             "by halves; .DB item count <= 4; .DW not covered (does not finish in CBMC). RandomState::new stubbed, logging compiled out.",
+        technique=KANI + "one translator step per AST shape from a symbolic address counter"),
+    "C06": dict(
+        category="model_checking",
+        text="Panic freedom (Kani's default checks) of one translator step for every operand shape the grammar admits (DEC with all 8 source shapes, "
+             "two-operand class pairwise, .ORG to any address from any counter, a 4-byte instruction at every counter value) and of Machine::load "
+             "with an image of symbolic length up to 260 bytes. Counterexamples are confirmed through the public path (text -> parse -> compile -> "
+             "load) before they count. Four known findings are listed; residual harnesses keep the rest of each domain covered.",
+        design_ref="DESIGN.md section 3 / C06",
+        note="Premise 'parser-accepted' over-approximated by AST shapes + public-path confirmation. Label-case crash (HashMap half) not covered.",
+        technique=KANI + "panic freedom of translator step and load, counterexamples confirmed through the public API"),
+    "C11": dict(
+        category="model_checking",
+        text="Machine::trigger_key_clock in Assembly mode is checked against an explicit single-edge stepping loop with the clock edge replaced by an "
+             "ARBITRARY deterministic automaton (symbolic next-state/micro-address/run-state tables): for every behaviour of the edge and every "
+             "start state the step issues exactly the edges up to the next boundary or halt, for steps of at most 6 (quick) / 12 (thorough) edges. "
+             "'A step always returns' is decided from the proved sequencer graph; the 20 undefined first bytes for which it does not are a known finding.",
+        design_ref="DESIGN.md section 3 / C11",
+        note="The real edge is stubbed in this lemma (it is C01/C05/C09's subject); counterexamples are confirmed on the real code by a native sweep "
+             "over fixed programs x phases. Steps longer than the bound (MUL/DIV, > 12 edges) are outside.",
+        technique=KANI + "stepping loop vs reference loop over an uninterpreted (table-driven) edge function"),
+    "C03": dict(
+        category="other",
+        text="Reduced claim: bounded equivalence of the LINE LANGUAGE only. The PEG semantics of the real grammar file (ordered choice, greedy "
+             "repetition, lookahead) is encoded for a symbolic string and compared by z3 with a declarative reference (mnemonic table x operand shapes "
+             "x semantic numeric ranges): unsat for all lines up to 9 (quick) / 12 (thorough) characters, numeric/label/register tokens up to 14 / 20, "
+             "header up to 12. The encoder is validated on every run against the real parser on the repo's programs.",
+        design_ref="DESIGN.md section 3 / C03",
+        note="NOT covered: the Rust half (pest runtime, AST construction, 'never panics', 40-label limit, undefined labels, Unicode) - cannot be executed "
+             "symbolically (2 symbolic bytes > 15 min).",
+        technique="PEG grammar -> SMT (z3) encoding over a symbolic bounded string, equivalence with a reference language; counterexamples replayed through the real parser"),
+})
+
 NOT_APPLICABLE = {
     "C12": "RunnerConfig::run begins with AsmParser::parse + Translator::compile (pest runtime, HashMap/SipHash): not "
            "encodable by Kani/CBMC within reach (concrete one-line program, max_cycles<=3: >7 min, unfinished); the CLI "
@@ -101,6 +186,9 @@ def main():
     for pid in all_ids:
         if pid not in CHECKS and pid not in NOT_APPLICABLE:
             na.append({"property_id": pid, "reason": PENDING})
+    for c in checks:
+        if c["property_id"] == "C03":
+            c["engine"] = "peg-smt"
     m = {
         "version": 1,
         "setup_cmd": "./setup.sh",
@@ -112,9 +200,11 @@ def main():
             "add_only": True,
         },
         "engines": [
-            {"name": "kani-cbmc", "path": "/verif/kani-lib", "serves_properties": sorted(CHECKS),
+            {"name": "kani-cbmc", "path": "/verif/kani-lib", "serves_properties": sorted(p for p in CHECKS if p != "C03"),
              "kind_free_text": "Kani 0.68 proof harnesses over the real crate (path dependency on /repo/emulator-2a-lib), "
                                "CBMC 6.11 + CaDiCaL; harnesses double as native replay functions (kani_shim)"},
+            {"name": "peg-smt", "path": "/verif/peg", "serves_properties": ["C03"],
+             "kind_free_text": "pest grammar file -> SMT encoding of PEG semantics over a symbolic bounded string (z3 python API)"},
         ],
         "checks": checks,
         "notes": "Solver-based checking only (see DESIGN.md). Exit codes: 0 held / known findings only, 1 VIOLATION "
